@@ -120,6 +120,11 @@ static void gradient_case (long idx, vf_rng *r)
         else { pixman_image_composite32 (op, other, grad, d1, 0, 0, gx, gy, dx, dy, w, h);
                pixman_image_set_component_alpha (grad, 0); pixman_image_composite32 (PIXMAN_OP_SRC, grad, NULL, copy, gx, gy, 0, 0, 0, 0, w, h); if (ca) pixman_image_set_component_alpha (copy, 1);
                pixman_image_composite32 (op, other, copy, d2, 0, 0, 0, 0, dx, dy, w, h); }
+        if (vf.verbose) { fprintf (stderr, "GRADIENT kind=%d p1=(%d,%d) p2=(%d,%d) r1=%d r2=%d repeat=%d tr=[%d %d %d;%d %d %d;%d %d %d] tk=%d gx=%d gy=%d w=%d h=%d dx=%d dy=%d op=%d as_mask=%d ca=%d\n", kind, p1.x, p1.y, p2.x, p2.y, r1, r2, repeat,
+            tr.matrix[0][0], tr.matrix[0][1], tr.matrix[0][2], tr.matrix[1][0], tr.matrix[1][1], tr.matrix[1][2], tr.matrix[2][0], tr.matrix[2][1], tr.matrix[2][2], tk, gx, gy, w, h, dx, dy, (int)op, as_mask, ca);
+            for (int i = 0; i < ns; i++) fprintf (stderr, "  stop %d: x=%d a=%04x r=%04x g=%04x b=%04x\n", i, st[i].x, st[i].color.alpha, st[i].color.red, st[i].color.green, st[i].color.blue);
+            const uint32_t *cp = pixman_image_get_data (copy); int cs = pixman_image_get_stride (copy) / 4; for (int y = 0; y < h; y++) { fprintf (stderr, "  copy row %d:", y); for (int x = 0; x < w; x++) fprintf (stderr, " %08x", cp[y * cs + x]); fprintf (stderr, "\n"); }
+            fprintf (stderr, "  other=(%04x %04x %04x %04x)\n", oc.alpha, oc.red, oc.green, oc.blue); }
         uint32_t m = rp_defined_mask (df); int bad = 0;
         for (int y = 0; y < H && !bad; y++) for (int x = 0; x < W; x++) { uint32_t a = vf_get_px (vf_buf_row (&D1, y), D1.bpp, x) & m, b = vf_get_px (vf_buf_row (&D2, y), D2.bpp, x) & m;
             if (a != b) { char key[120]; snprintf (key, sizeof key, "C09:gradient-vs-rendered-copy:%s:%s:%s", kn[kind], as_mask ? "mask" : "source", ro_op_name (op));
